@@ -258,3 +258,19 @@ Proof.
     + cbn [mb_agree]. repeat split.
 Qed.
 End MBR.
+
+(* from the initial cursor of LineMarkersPass.new (the hypothesis of mbrun_is_run holds there) *)
+Definition mbreduce (ismark:text -> bool) (test:nat -> list text -> bst -> bool) (t:text) : option (text * list entry) :=
+  match create (length (marks ismark t)) with
+  | None => Some (t, [])
+  | Some s => mbrun ismark test (fuel_for (length (marks ismark t))) 0 t s []
+  end.
+Theorem mbreduce_is_reduce ismark test t :
+  mb_agree ismark t (mbreduce ismark test t) (reduce test (marks ismark t)).
+Proof.
+  unfold mbreduce, reduce. destruct (create (length (marks ismark t))) as [s|] eqn:C.
+  - unfold create in C. destruct (Nat.eqb (length (marks ismark t)) 0) eqn:Z; [discriminate|].
+    apply Nat.eqb_neq in Z. inversion C; subst s; clear C.
+    apply (mbrun_is_run ismark test (length (marks ismark t))). unfold WFb; cbn [instances index chunk]. repeat split; lia.
+  - cbn [mb_agree]. repeat split.
+Qed.
